@@ -165,12 +165,12 @@ def c09(c):
     rules on a and b); elements sharing a timestamp / sort key may come in any order"""
     return [
         _fam(name='stream-order-window', series=S, times=T, maxrows=1, maxtotal=3, maxops=3,
-             sims=50 if c.quick else 500, simops=12, queries=c09_queries(), index='inverted', sim=dict(maxrows=3, maxtotal=9)),
+             sims=30 if c.quick else 500, simops=12, queries=c09_queries(), index='inverted', sim=dict(maxrows=3, maxtotal=9)),
         _fam(name='stream-order-window-noindex', series=S, times=T, maxrows=1, maxtotal=3, maxops=3,
-             sims=40 if c.quick else 300, simops=12, queries=c09_queries(), index='none', sim=dict(maxrows=3, maxtotal=9)),
+             sims=25 if c.quick else 300, simops=12, queries=c09_queries(), index='none', sim=dict(maxrows=3, maxtotal=9)),
         # two shards: ordered results are merged across the tables of the shards
         _fam(name='stream-order-window-2shards', series=S, times=T, maxrows=1, maxtotal=3, maxops=3,
-             sims=25 if c.quick else 300, simops=12, queries=c09_queries(), index='inverted', shards=2, sim=dict(maxrows=3, maxtotal=9)),
+             sims=15 if c.quick else 300, simops=12, queries=c09_queries(), index='inverted', shards=2, sim=dict(maxrows=3, maxtotal=9)),
         # index rule IDs are CRC-32 values of group and rule name, their bytes name the fields inside the inverted index:
         # groups whose rule ID begins with the byte '-' / '+' (one group in 128 has such a rule)
         _fam(name='stream-order-window-rule-id-sign', series=S, times=T, maxrows=1, maxtotal=3, maxops=3,
@@ -179,12 +179,12 @@ def c09(c):
         # identical (the scanner walks time-disjoint groups of parts one after the other); every path of the graph
         _fam(name='stream-order-disjoint-parts', series=[1, 2], times=T, maxrows=1, maxtotal=3, maxops=7, graphops=7,
              sims=0, simops=8, script=['write', 'flush', 'write', 'flush', 'write', 'flush', 'queryall'],
-             queries=c09_queries(), index='none'),
+             queries=c09_queries4() if c.quick else c09_queries(), index='none'),
         # three file parts of up to two elements over four timestamps: all shapes of nested / overlapping / disjoint /
         # touching time ranges (chosen among many -simulate behaviours by part_shapes)
         _fam(name='stream-order-part-shapes', series=[1, 2], times=[1, 2], maxrows=1, maxtotal=3, maxops=7,
              sims=3000 if c.quick else 12000, simops=7, script=['write', 'flush', 'write', 'flush', 'write', 'flush', 'queryall'],
-             queries=c09_queries4(), index='none', select=part_shapes, per_class=2 if c.quick else 8,
+             queries=c09_queries4(), index='none', select=part_shapes, per_class=1 if c.quick else 8,
              sim=dict(times=[1, 2, 3, 4], maxrows=2, maxtotal=6)),
     ]
 
